@@ -385,14 +385,15 @@ def _narrow_int(a: np.ndarray, salt: int):
 
 
 def build(spec: dict, *, with_tag: bool = True, source: str = "", comments=None,
-          plain: bool = False, frozen_ok: bool = False):
+          plain: bool = False, frozen_ok: bool = False, share_ok: bool = True):
     """Build a swcgeom Tree from a spec (own copies of every array).
 
     Deterministically from the spec's content the columns are handed to the constructor in one of
     several *representations* of the same values: contiguous arrays of the library's own dtypes;
     strided views into one (n, 4) block (``Tree(n, x=xyz[:, 0], ...)``); other dtypes and
     containers (int64 / narrow ints / lists for id-like columns, float64 / lists for
-    coordinates); one array object given for two columns that hold the same values; read-only
+    coordinates); one array object given for two columns that hold the same values (not for
+    ``share_ok=False`` call sites, which write through handles and keep a shadow copy); read-only
     views (``frozen_ok`` call sites only: the harness itself never writes into those trees).
     Every other tree is first queried read-only (``warm``), every third one first sees operations
     that fail or are abandoned (``abuse``)."""
@@ -425,7 +426,7 @@ def build(spec: dict, *, with_tag: bool = True, source: str = "", comments=None,
             elif m == 2:
                 kw[k] = [float(v) for v in kw[k]]
         WARM_STATS["other_input_dtypes"] += 1
-    if std and n >= 2 and layout != 2:
+    if share_ok and std and n >= 2 and layout != 2:
         # columns with equal content handed over as one and the same array object
         names = [k for k in kw if isinstance(kw[k], np.ndarray) and k not in ("pid", "tag")]
         done = False
